@@ -50,6 +50,8 @@ type specGen struct {
 	info *SpecInfo
 	doc  map[string]any
 	nid  int
+	// base index and shape of the previous path (sibling paths share a base)
+	lastBase, lastShape int
 }
 
 var plainNames = []string{"id", "name", "tag", "kind", "size", "count", "label", "owner", "status", "note"}
@@ -279,7 +281,16 @@ func Spec(t *rapid.T, o SpecOpts) (map[string]any, *SpecInfo) {
 // pathTemplate builds the i-th path: distinct first segment guarantees no overlap between paths.
 func (g *specGen) pathTemplate(i int) (string, []string) {
 	base := "/r" + strconv.Itoa(i)
-	switch rapid.IntRange(0, 4).Draw(g.t, "pathshape") {
+	shape := rapid.IntRange(0, 4).Draw(g.t, "pathshape")
+	// sibling paths: reuse the base of the previous path with another shape. The five shapes keep different
+	// forms once their placeholders are stripped ("", X, X/sub/X, X-X, x/X/), so siblings never overlap.
+	if i > 0 && g.lastShape != shape && rapid.IntRange(0, 1).Draw(g.t, "siblingpath") == 0 {
+		base = "/r" + strconv.Itoa(g.lastBase)
+	} else {
+		g.lastBase = i
+	}
+	g.lastShape = shape
+	switch shape {
 	case 0:
 		return base, nil
 	case 1:
